@@ -590,6 +590,13 @@ macro_rules | `(tactic| pres_prim) => `(tactic| with_reducible first
   | exact hpres_tableGet _ _ | exact hpres_deallocBytes _ | exact hpres_dropGuard _
   | exact hpres_readUpvalueLoc _ | exact hpres_guardVal _ | exact hpres_unguardVal _)
 
+theorem hpres_guardRows (es : List (Val × Val)) : Pres Harmless (guardRows es) := by
+  unfold guardRows; pres_auto
+theorem hpres_unguardRows (es : List (Val × Val)) : Pres Harmless (unguardRows es) := by
+  unfold unguardRows; pres_auto
+macro_rules | `(tactic| pres_prim) => `(tactic| with_reducible first
+  | exact hpres_guardRows _ | exact hpres_unguardRows _)
+
 theorem hpres_nativeConv (name : String) : Pres Harmless (nativeConv name) := by
   unfold nativeConv; pres_auto
 
@@ -698,6 +705,8 @@ macro_rules | `(tactic| st_prim) => `(tactic| with_reducible first
   | exact keeps_of_pres_quiet (hpres_dropGuard _) (quiet_dropGuard _)
   | exact keeps_of_pres_quiet (hpres_guardVal _) (quiet_guardVal _)
   | exact keeps_of_pres_quiet (hpres_unguardVal _) (quiet_unguardVal _)
+  | exact keeps_of_pres_quiet (hpres_guardRows _) (quiet_guardRows _)
+  | exact keeps_of_pres_quiet (hpres_unguardRows _) (quiet_unguardRows _)
   | exact keeps_of_pres_quiet (hpres_closeUpvalues _) (quiet_closeUpvalues _)
   | exact keeps_of_pres_quiet (hpres_readUpvalueLoc _) (quiet_readUpvalueLoc _)
   | exact keeps_of_pres_quiet (hpres_writeUpvalueLoc _ _) (quiet_writeUpvalueLoc _ _)
